@@ -31,6 +31,10 @@ class TPCI(ABC):
 
     def to_knx(self) -> int:
         """Serialize to KNX/IP raw data."""
+        if not 0 <= self.sequence_number <= 0xF:
+            raise ConversionError(
+                "Sequence number out of range", sequence_number=self.sequence_number
+            )
         return (
             self.control << 7
             | self.numbered << 6
